@@ -2,6 +2,7 @@
 """Regenerates seeded/SUMMARY.md from seeded/*/meta.json."""
 import glob, json, os
 rows = []
+obsolete = []
 try:
     first = json.load(open('/verif/seeded/first_pass.json'))
 except Exception:
@@ -10,6 +11,9 @@ for f in sorted(glob.glob('/verif/seeded/*/meta.json')):
     m = json.load(open(f))
     c = m.get('confirmed', {})
     name = os.path.basename(os.path.dirname(f))
+    if m.get('obsolete'):
+        obsolete.append((name, m['obsolete']))
+        continue
     caught = c.get('caught_by', [])
     det = ''
     for ck, rs in (c.get('checks') or {}).items():
@@ -29,6 +33,8 @@ with open('/verif/seeded/SUMMARY.md', 'w') as w:
     w.write('| id | property | change | needs | demo confirmed | repo tests | caught by (now) | first pass | first detection |\n|---|---|---|---|---|---|---|---|---|\n')
     for r in rows:
         w.write('| ' + ' | '.join(str(x) for x in r) + ' |\n')
+    for n, why in obsolete:
+        w.write('\nNot counted: %s - %s\n' % (n, why))
     w.write('\n"first pass" = result of the quick tier as it stood when the change was first evaluated (seeded/first_pass.json); '
             '"caught by (now)" = result after the checks were strengthened.\n')
 print(len(rows), 'rows')
